@@ -56,6 +56,13 @@ pub struct ElfSpec {
     /// rotation of the section-name order inside .shstrtab (which name comes last matters)
     #[serde(default)]
     pub shstr_rotation: u8,
+    /// decoy section placed BEFORE .text in the section table: 0 none, 1 PROGBITS+ALLOC (like .rodata/.interp),
+    /// 2 NOBITS+ALLOC+EXECINSTR, 3 PROGBITS+EXECINSTR without ALLOC, 4 PROGBITS+ALLOC+WRITE
+    #[serde(default)]
+    pub decoy_before: u8,
+    /// a second PROGBITS+ALLOC+EXECINSTR section AFTER .text (the first one must be used)
+    #[serde(default)]
+    pub decoy_after: bool,
 }
 
 #[derive(Debug, Clone)]
@@ -208,6 +215,11 @@ pub fn build(spec: &ElfSpec) -> Built {
     // shstrtab
     let mut shstr: Vec<u8> = vec![0];
     let mut names = std::collections::BTreeMap::new();
+    for n in [".rodata", ".text2"] {
+        names.insert(n, shstr.len());
+        shstr.extend_from_slice(n.as_bytes());
+        shstr.push(0);
+    }
     let mut name_order = [".text", ".note.gnu.build-id", ".shstrtab", ".dynamic", ".dynstr"];
     name_order.rotate_left(spec.shstr_rotation as usize % 5);
     for n in name_order {
@@ -217,7 +229,14 @@ pub fn build(spec: &ElfSpec) -> Built {
     }
     let shoff = align_up(shstr_off + shstr.len(), 8);
     // sections: null, .text, [.note], .shstrtab, [.dynamic, .dynstr]
-    let mut sect: Vec<&str> = vec!["null", ".text"];
+    let mut sect: Vec<&str> = vec!["null"];
+    if spec.decoy_before % 5 != 0 {
+        sect.push(".rodata");
+    }
+    sect.push(".text");
+    if spec.decoy_after {
+        sect.push(".text2");
+    }
     if has_note && spec.note_section {
         sect.push(".note.gnu.build-id");
     }
@@ -336,6 +355,14 @@ pub fn build(spec: &ElfSpec) -> Built {
                 let (name, ty, flags, off, size, link, addralign, entsize) = match *sname {
                     "null" => (0usize, 0u32, 0u64, 0usize, 0usize, 0usize, 0usize, 0usize),
                     ".text" => (names[".text"], SHT_PROGBITS, SHF_ALLOC | SHF_EXECINSTR, text_off, text_len, 0, 16, 0),
+                    // decoys cover the section-name table (always present, never empty, different bytes than .text)
+                    ".rodata" => match spec.decoy_before % 5 {
+                        1 => (names[".rodata"], SHT_PROGBITS, SHF_ALLOC, shstr_off, shstr.len(), 0, 1, 0),
+                        2 => (names[".rodata"], 8u32 /* SHT_NOBITS */, SHF_ALLOC | SHF_EXECINSTR, shstr_off, shstr.len(), 0, 1, 0),
+                        3 => (names[".rodata"], SHT_PROGBITS, SHF_EXECINSTR, shstr_off, shstr.len(), 0, 1, 0),
+                        _ => (names[".rodata"], SHT_PROGBITS, SHF_ALLOC | 1, shstr_off, shstr.len(), 0, 1, 0),
+                    },
+                    ".text2" => (names[".text2"], SHT_PROGBITS, SHF_ALLOC | SHF_EXECINSTR, shstr_off, shstr.len(), 0, 1, 0),
                     ".note.gnu.build-id" => (names[".note.gnu.build-id"], SHT_NOTE, SHF_ALLOC, note_off, notes.len(), 0, note_align, 0),
                     ".shstrtab" => (names[".shstrtab"], SHT_STRTAB, 0, shstr_off, shstr.len(), 0, 1, 0),
                     ".dynamic" => (names[".dynamic"], SHT_DYNAMIC, SHF_ALLOC | 1, dyn_off, n_dyn * dyn_ent, dynstr_idx, 8, dyn_ent),
